@@ -277,8 +277,10 @@ class Check(object):
         ev = {"property_id": self.prop, "tier": self.tier, "seed": int(self.seed),
               "level": self.level, "coverage": cov, "assumptions": self.assumptions,
               "wall_s": round(wall, 2), "violations": len(self.violations)}
-        os.makedirs(os.path.join(VERIF, "evidence"), exist_ok=True)
-        with open(os.path.join(VERIF, "evidence", self.prop + ".json"), "w") as fh:
+        # evidence describes /repo; runs against another tree (seeded changes, mutants: CVSS_REPO set) leave it alone
+        evdir = os.path.join(VERIF, "evidence") if os.path.realpath(REPO) == "/repo" else os.path.join(VERIF, "out", "evidence-other-tree")
+        os.makedirs(evdir, exist_ok=True)
+        with open(os.path.join(evdir, self.prop + ".json"), "w") as fh:
             json.dump(ev, fh, indent=1, sort_keys=True)
         print("%s %s: %s  (states=%d transitions=%d traces=%d evaluations=%d, %.1fs)" % (
             self.prop, self.tier, "VIOLATED" if self.violations else "ok", self.states,
